@@ -2,6 +2,8 @@
 bounds, numeric registries, coverage."""
 from __future__ import annotations
 
+import ast
+
 from .model import ClassInfo, EnumMember, ParamsValue
 from .spec import compare_with_spec, load_spec, prefix_width
 from .values import ClassV, ObjV, is_const, show
@@ -148,6 +150,8 @@ def run(ctx, report, prop, spec_file, modules, reviewed=None, skip_sides=None, o
             base = [b.name for b in c.mro[1:] if isinstance(b, ClassInfo) and b.name in table][0]
             if base_defines_layout(c, model.cls(base)):
                 continue
+        if only_a_base(model, c, table):
+            continue        # a shared base of specified structures that nothing names on its own: its subclasses carry the layout
         report.add(R3, c.construct + '@unspecified', 'wire structure %s has no entry in sa/specs/%s' % (c.name, spec_file))
 
 
@@ -211,6 +215,28 @@ def attribute_names(ctx, report, rule, recv, c, side, cm):
             elif not roots and sp.get('carried', True) and (src is None or is_const_like(src)):
                 report.add(rule, '%s@compose/constant[%s]' % (c.construct, want),
                            'at the position of %s the composer writes a constant, not a value of the object' % want)
+
+
+def only_a_base(model, c, table):
+    """is the class nothing but a common base: it has subclasses, each of them has its own entry (or inherits one), and the name of
+    the class occurs in the package only in base class lists and in ``super(Class, ...)``"""
+    subs = [k for k in model.repo_classes() if k is not c and k.is_subclass_of(c.name)]
+    if not subs or not all(any(isinstance(b, ClassInfo) and b.name in table for b in k.mro) or k.abstract_methods for k in subs):
+        return False
+    for m in model.repo_modules():
+        allowed = set()
+        for n in ast.walk(m.tree):
+            if isinstance(n, ast.ClassDef):
+                for b in n.bases:
+                    for x in ast.walk(b):
+                        allowed.add(id(x))
+            if isinstance(n, ast.Call) and isinstance(n.func, ast.Name) and n.func.id == 'super':
+                for a in n.args:
+                    allowed.add(id(a))
+        for n in ast.walk(m.tree):
+            if isinstance(n, ast.Name) and n.id == c.name and id(n) not in allowed:
+                return False
+    return True
 
 
 def is_const_like(v):
